@@ -7,7 +7,7 @@ sequence `faults` of attempt outcomes (retried failure / final failure / ignored
 an ARBITRARY schedule `ops` of producer steps, consumer polls and the drop of the pager.
 -/
 import ScyllaVerif.Proofs.Pager
-import ScyllaVerif.Model.PagerExec
+import ScyllaVerif.Proofs.PagerExec
 
 namespace ScyllaVerif.Props.C07
 open ScyllaVerif.Pager
@@ -614,71 +614,104 @@ example :
       (List.replicate 6 [Op.prod, Op.poll]).flatten
     s.ctorErr = some "Cancelled" ∧ s.log = [(0, none), (0, none)] ∧ s.delivered = [] := by decide
 
-/-! ### C07 × C06: page fetches through the execution core; failover to another node
+/-! ### C07 × C06: page fetches through the execution core; which node every request goes to
 
-One page fetch is one run of the request-execution core (`Model/Exec.lean`, C06's model of
-`run_request_no_side_effects`): `PagerExec.attemptsOfTrace` turns its trace into the page loop's attempt
-outcomes, one per request sent, whatever target each attempt went to. -/
+One page fetch is one run of the request-execution core - `Exec.run`, C06's model of
+`run_request_no_side_effects` - over the plan "previous coordinator, then the load-balancing plan without
+it" (`PagerExec.pagePlan`, pager.rs 337-365). `PagerExec.fetches` is the sequence of these runs for one
+iteration: the load-balancing plans `lbs` (one per page, arbitrary duplicate-free node lists) and the
+outcomes of the attempts are the inputs, the coordinator of each completed fetch heads the next plan. The
+theorems below are about THESE traces (not about arbitrary `Trace` records): `tableNodes` / `tablePages`
+list, for every request of the iteration in order, the node it goes to and the page it asks for. -/
 
-open ScyllaVerif.PagerExec in
-/-- One entry per request the execution core sent (when it sent any). -/
-theorem requests_of_trace (tr : ScyllaVerif.Exec.Trace) (h : 0 < tr.attempts.length) :
-    (attemptsOfTrace tr).length = tr.attempts.length := by
-  simp [attemptsOfTrace]; omega
+section failover
+open ScyllaVerif.PagerExec
+variable (pol : ScyllaVerif.Retry.Policy) (idem : Bool) (cl : ScyllaVerif.Retry.Consistency)
+variable (lbs : List (List Nat × (Nat → ScyllaVerif.Exec.Outcome)))
 
-open ScyllaVerif.PagerExec in
-/-- A fetch that completed - on whichever target, after however many retries on the same or on OTHER
-nodes - is, for the page loop, retries followed by a success. -/
-theorem completed_fetch_is_retries_then_ok (tr : ScyllaVerif.Exec.Trace) (t : Nat)
-    (h : tr.final = .completed t) :
-    attemptsOfTrace tr = List.replicate (tr.attempts.length - 1) Attempt.retry ++ [Attempt.ok] := by
-  simp [attemptsOfTrace, h, lastOf]
+/-- The request log of the pager IS the request table of the execution-core runs: the `i`-th request on
+the wire - which the execution core sends to node `(tableNodes fs)[i]` - asks for page
+`(tablePages 0 fs)[i]` and carries the paging state returned with the page before it, under every
+schedule. In particular a request that fails over to another node carries the same state as the attempt
+before it (same page index). -/
+theorem request_log_matches_table (pages : List Page) (ops : List Op) (hne : ∀ p ∈ lbs, p.1 ≠ []) :
+    let fs := fetches pol idem cl none lbs
+    let s := run (init pages (pageFaults (fs.map Fetch.trace))) ops
+    ∀ i (h1 : i < s.log.length) (h2 : i < (tablePages 0 fs).length),
+      (s.log[i]).1 = (tablePages 0 fs)[i] ∧ (s.log[i]).2 = stateBefore pages (tablePages 0 fs)[i] := by
+  intro fs s i h1 h2
+  have hwf : WF fs := fetches_wf pol idem cl lbs none hne
+  have hn := ninv_run (ninv_init pages (pageFaults (fs.map Fetch.trace))) ops
+  have hidx := hn.idx i h1
+  have hlen : i ≤ (pageFaults (fs.map Fetch.trace)).length := by
+    rw [pageFaults_length fs hwf, ← tablePages_length 0 fs]; omega
+  have hpage : (s.log[i]).1 = (tablePages 0 fs)[i] := by
+    rw [hidx, okBefore_eq_count _ i hlen, table_page_is_ok_count fs hwf 0 i h2]; simp
+  refine ⟨hpage, ?_⟩
+  rw [← hpage]
+  exact paging_state_chain pages _ ops _ (List.getElem_mem h1)
 
-open ScyllaVerif.PagerExec in
-/-- A fetch the execution core gave up on (`DontRetry`, or the plan ran out of targets) ends, for the page
-loop, in a final failure carrying that error. -/
-theorem failed_fetch_is_final_failure (tr : ScyllaVerif.Exec.Trace) (e : ScyllaVerif.Retry.Err)
-    (h : tr.final = .stopped e ∨ tr.final = .exhausted (some (.attempt e))) :
-    attemptsOfTrace tr = List.replicate (tr.attempts.length - 1) Attempt.retry ++ [Attempt.fail (errLabel e)] := by
-  rcases h with h | h <;> simp [attemptsOfTrace, h, lastOf]
+/-- Coordinator stability (pager.rs `stable_coordinator`, 337-365, 392, 482): along the fetches of an
+iteration every fetch but the last completed, and the FIRST request of the next page's fetch goes to the
+node that completed the previous page - whatever the load-balancing policy returned for that page. -/
+theorem first_request_goes_to_previous_coordinator : Stable (fetches pol idem cl none lbs) :=
+  fetches_stable pol idem cl lbs none
 
-open ScyllaVerif.PagerExec in
-/-- Failover keeps the paging state: for EVERY sequence of execution-core traces (any plan, any targets,
-any retry policy, any errors), every request the pager sends for page `k` - the first attempt on the
-previous coordinator as well as the retries on other nodes - carries the state returned with page `k-1`;
-and all requests for the same page carry the same state. -/
-theorem failover_keeps_paging_state (pages : List Page) (traces : List ScyllaVerif.Exec.Trace) (ops : List Op) :
-    (∀ e ∈ (run (init pages (pageFaults traces)) ops).log, e.2 = stateBefore pages e.1) ∧
-    (∀ a ∈ (run (init pages (pageFaults traces)) ops).log, ∀ b ∈ (run (init pages (pageFaults traces)) ops).log,
-      a.1 = b.1 → a.2 = b.2) :=
-  ⟨paging_state_chain pages _ ops, (paging_requests_in_order pages _ ops).2.1⟩
+/-- Within one page fetch: the first request goes to the head of the plan; after a `RetrySameTarget`
+decision the next request goes to the SAME node, after `RetryNextTarget` to a DIFFERENT node. -/
+theorem retry_goes_to_the_right_node (hne : ∀ p ∈ lbs, p.1 ≠ []) (hnd : ∀ p ∈ lbs, p.1.Nodup) :
+    ∀ f ∈ fetches pol idem cl none lbs,
+      f.nodes.head? = some (f.plan.getD 0 0) ∧ NodesChained f.nodes f.trace.decisions := by
+  intro f hf
+  obtain ⟨c, lb, outs, hm, rfl⟩ := fetches_mem pol idem cl lbs none f hf
+  have hplan : pagePlan c lb ≠ [] := by
+    have := hne _ hm
+    cases c <;> simp [pagePlan, this]
+  exact fetch_nodes pol idem cl (pagePlan c lb) outs (pagePlan_nodup c lb (hnd _ hm)) hplan
 
-open ScyllaVerif.PagerExec in
-/-- Node switches lose nothing: if every page fetch eventually completed on some target, the stream
-yields exactly all rows, in order, once, and ends - for every script and every pattern of failovers. -/
-theorem failover_loses_nothing (pages : List Page) (traces : List ScyllaVerif.Exec.Trace) (n : Nat)
-    (hc : ∀ tr ∈ traces, ∃ t, tr.final = .completed t)
-    (hn : (pageFaults traces).length + 5 * pages.length + todoRows pages + 7 ≤ n) :
-    (runEager n (init pages (pageFaults traces))).delivered = servedRows pages ∧
-    (runEager n (init pages (pageFaults traces))).ended = true ∧
-    (runEager n (init pages (pageFaults traces))).errs = [] := by
-  have hf : ∀ a ∈ pageFaults traces, a = Attempt.ok ∨ a = Attempt.retry := by
+/-- Every fetch over a non-empty plan of connected nodes sends at least one request, and the number of
+attempt outcomes the page loop sees is the number of requests. -/
+theorem every_fetch_sends_a_request (hne : ∀ p ∈ lbs, p.1 ≠ []) :
+    (∀ f ∈ fetches pol idem cl none lbs, f.trace.attempts ≠ []) ∧
+    (pageFaults ((fetches pol idem cl none lbs).map Fetch.trace)).length
+      = (tableNodes (fetches pol idem cl none lbs)).length :=
+  ⟨fetches_send pol idem cl lbs none hne, pageFaults_length _ (fetches_wf pol idem cl lbs none hne)⟩
+
+/-- Node switches lose nothing: if every fetch of the iteration completed on some node - after however
+many failovers - the stream yields exactly all rows, in order, once, and ends. -/
+theorem failover_loses_nothing (pages : List Page) (n : Nat)
+    (hc : ∀ f ∈ fetches pol idem cl none lbs, ∃ t, f.trace.final = .completed t)
+    (hn : (pageFaults ((fetches pol idem cl none lbs).map Fetch.trace)).length + 5 * pages.length
+      + todoRows pages + 7 ≤ n) :
+    (runEager n (init pages (pageFaults ((fetches pol idem cl none lbs).map Fetch.trace)))).delivered
+      = servedRows pages ∧
+    (runEager n (init pages (pageFaults ((fetches pol idem cl none lbs).map Fetch.trace)))).ended = true ∧
+    (runEager n (init pages (pageFaults ((fetches pol idem cl none lbs).map Fetch.trace)))).errs = [] := by
+  have hf : ∀ a ∈ pageFaults ((fetches pol idem cl none lbs).map Fetch.trace), a = Attempt.ok ∨ a = Attempt.retry := by
     intro a ha
     simp only [pageFaults, List.mem_flatten, List.mem_map] at ha
-    obtain ⟨l, ⟨tr, htr, rfl⟩, hal⟩ := ha
-    obtain ⟨t, ht⟩ := hc tr htr
-    rw [completed_fetch_is_retries_then_ok tr t ht] at hal
+    obtain ⟨l, ⟨tr, ⟨f, hfm, rfl⟩, rfl⟩, hal⟩ := ha
+    obtain ⟨t, ht⟩ := hc f hfm
+    simp only [attemptsOfTrace, ht, lastOf] at hal
     rcases List.mem_append.mp hal with h | h
     · right; exact (List.mem_replicate.mp h).2
     · left; simpa using h
-  have := retries_lose_nothing pages (pageFaults traces) n hf hn
+  have := retries_lose_nothing pages _ n hf hn
   exact ⟨this.1, this.2.1, this.2.2.1⟩
 
-/-- Non-vacuity, with C06's model of the default retry policy on a 2-node plan: an idempotent page request
-answered `Overloaded` by the first node completes on the second one (a node switch), and the page loop
-sees one retried attempt; on a non-idempotent statement the same answer is final. -/
+end failover
+
+/-- Non-vacuity, on a 3-node cluster with the default retry policy, idempotent statement: page 0 is
+answered `Overloaded` by node 0 and served by node 1; page 1 is first asked of node 1 (coordinator
+stability), answered `IsBootstrapping`, then a digest-only read timeout on node 0 is retried on node 0;
+page 2 goes to node 0 first. -/
 example :
-    (ScyllaVerif.PagerExec.clusterFetch 2 true ['o']).final = .completed 1 ∧
+    let fs := ScyllaVerif.PagerExec.clusterFetches 3 true [['o'], ['b', 'R'], []]
+    ScyllaVerif.PagerExec.tableNodes fs = [0, 1, 1, 0, 0, 0] ∧
+    ScyllaVerif.PagerExec.tablePages 0 fs = [0, 0, 1, 1, 1, 2] ∧
+    fs.map ScyllaVerif.PagerExec.Fetch.coordinator = [some 1, some 0, some 0] := by decide
+
+example :
     ScyllaVerif.PagerExec.attemptsOfTrace (ScyllaVerif.PagerExec.clusterFetch 2 true ['o']) = [.retry, .ok] ∧
     ScyllaVerif.PagerExec.attemptsOfTrace (ScyllaVerif.PagerExec.clusterFetch 2 false ['o']) = [.fail "DbError:4097"] ∧
     ScyllaVerif.PagerExec.attemptsOfTrace (ScyllaVerif.PagerExec.clusterFetch 2 true ['o', 'o']) = [.retry, .fail "DbError:4097"] := by
